@@ -35,8 +35,10 @@ def all_instrs():
     return out
 
 
-def wrapper_source(name, p):
-    """Exo source text of the wrapper around instruction p"""
+def wrapper_source(name, p, strided=None):
+    """Exo source text of the wrapper around instruction p.  strided = k: the k-th 1-D DRAM operand is a column
+    of a 2-D backing array (stride 3) instead of a dense slice - accepted by exo only if the instruction's
+    assertions permit a non-unit stride there."""
     from exo.core.LoopIR import LoopIR, T
     ir = p.INTERNAL_proc()
     sig, pre, call, post, allocs = [], [], [], [], []
@@ -73,6 +75,7 @@ def wrapper_source(name, p):
     for pr in ir.preds:
         if only_ctl(pr):
             preds.append(str(pr))
+    n_dram = [0]
     for a in ir.args:
         n = str(a.name)
         if not a.type.is_numeric():
@@ -89,7 +92,13 @@ def wrapper_source(name, p):
             sig.append(f"{n}: {prec}")
             call.append(n)
             continue
-        if mem == "DRAM":
+        if mem == "DRAM" and len(shape) == 1 and strided is not None and n_dram[0] == strided:
+            n_dram[0] += 1
+            sig.append(f"{n}: {prec}[{shape[0]} + {OFF + 2}, 3]")
+            call.append(f"{n}[{OFF}:{OFF} + {shape[0]}, 1]")
+        elif mem == "DRAM":
+            if len(shape) == 1:
+                n_dram[0] += 1
             ext = [f"{s} + {OFF + 2}" for s in shape]
             sig.append(f"{n}: {prec}[{', '.join(ext)}]")
             call.append(f"{n}[{', '.join(f'{OFF}:{OFF} + {s}' for s in shape)}]")
@@ -146,20 +155,26 @@ def _job(job, emit):
     from exo.core.LoopIR import T
 
     instrs = dict(all_instrs())
+    work = []
     for name in job["names"]:
-        emit("begin", name)
+        ir_ = instrs[name].INTERNAL_proc()
+        nd = sum(1 for a in ir_.args if a.type.is_numeric() and len(a.type.shape()) == 1
+                 and (a.mem.name() if a.mem else "DRAM") == "DRAM")
+        work += [(name, None)] + [(name, k) for k in range(nd)]
+    for name, variant in work:
+        emit("begin", f"{name}/{variant}")
         p = instrs[name]
-        rec = {"instr": name}
+        rec = {"instr": name, "variant": variant}
         try:
             src = ("from __future__ import annotations\nfrom exo import proc\nfrom exo.libs.memories import *\n"
-                   "from exo.platforms.x86 import *\n\n" + wrapper_source(name, p))
+                   "from exo.platforms.x86 import *\n\n" + wrapper_source(name, p, strided=variant))
             rec["wrapper"] = src
             signal.alarm(120)
-            mod = load_generated(f"exoverif_instr_{name}", src)
+            mod = load_generated(f"exoverif_instr_{name}_{variant}", src)
             w = getattr(mod, f"w_{name}")
             wa = w.INTERNAL_proc()
-            unit, ex = make_unit(f"x86.{name}", wa, None, mode="Z")
-            rng = random.Random(f"c14/{job['seed']}/{name}")
+            unit, ex = make_unit(f"x86.{name}/{variant}", wa, None, mode="Z")
+            rng = random.Random(f"c14/{job['seed']}/{name}/{variant}")
             # control arguments: every admissible value of a small grid
             ctl = [a for a in wa.args if not a.type.is_numeric()]
             doms = []
@@ -215,7 +230,7 @@ def _job(job, emit):
             unit["inputs"] = [{"a": s} for s in sides]
             flags = ["-mavx2", "-mfma"] + (["-mavx512f"] if job["avx512"] else [])
             outs, files = run_c(w, cfg_fields_of(ex), sides, job["workdir"], opt="-O1", sanitize=True,
-                                extra_flags=flags, tag=f"i_{name}")
+                                extra_flags=flags, tag=f"i_{name}_{variant}")
             signal.alarm(0)
             attach_outputs(unit, cfg_fields_of(ex), outs)
             rec["status"] = "built"
@@ -235,7 +250,8 @@ def _job(job, emit):
             rec["why"] = f"export: {e}"
         except Exception as e:
             signal.alarm(0)
-            rec["status"] = "wrapper-rejected"
+            # (a strided variant is expected to be rejected whenever the instruction asserts a unit stride)
+            rec["status"] = "wrapper-rejected" if variant is None else "strided-rejected"
             rec["why"] = f"{type(e).__name__}: {str(e)[:400]}"
         emit("rec", rec)
 
@@ -252,5 +268,5 @@ def run(seed, workdir, max_ctl, reps, only=None):
     recs, crashes, hangs = stream_pool(jobs, _job, NCPU, silence=400)
     if crashes:
         raise MachineryError("instr worker crashed:\n" + crashes[0][1])
-    recs.sort(key=lambda r: r["instr"])
+    recs.sort(key=lambda r: (r["instr"], str(r.get("variant"))))
     return recs, avx512
